@@ -318,3 +318,76 @@ def tie_induced(path_a, path_b, keymap=None, tol=1e-12):
         if list(ka2) != list(kb):
             return abs(la - lb) <= tol * max(1.0, abs(la))
     return False
+
+
+def first_lattice_divergence(mt_a, mt_b, keymap=None, tol=1e-12):
+    """Fault localisation for order/label dependence (C10 permutation clause, C16 relabelling): compare the two lattices
+    layer by layer in (observation, non-emitting depth) order and describe the FIRST difference.
+    keymap maps a lattice key of run A to the corresponding key of run B (identity when None).
+    -> None when the lattices agree, else dict(where, kind, ties, detail) with kind in
+       'entry-set' (different live states), 'logprob' (same states, different probability), 'delayed' (same states and
+       probabilities, different postponement by the width pruning)."""
+    la, lb = mt_a.lattice or {}, mt_b.lattice or {}
+
+    def layer(lat, i, k):
+        if i not in lat or k >= len(lat[i].o):
+            return {}
+        return {key: e for key, e in lat[i].o[k].items() if not e.stop}
+
+    def exact_ties(entries):
+        lps = sorted(e.logprob for e in entries)
+        ds = sorted(e.dist_obs for e in entries)
+        return any(a == b for a, b in zip(lps, lps[1:])) or any(a == b for a, b in zip(ds, ds[1:]))
+    ncol = max([len(la), len(lb)])
+    prev_choice_tie = False  # same state, same probability, different best predecessor: an exact tie between two candidates
+    for i in range(ncol):
+        depth = max(len(la[i].o) if i in la else 0, len(lb[i].o) if i in lb else 0)
+        for k in range(depth):
+            A = layer(la, i, k)
+            B = layer(lb, i, k)
+            Am = {(tuple(keymap(key)) if keymap else key): e for key, e in A.items()}
+            kind = None
+            if set(Am) != set(B):
+                kind = "entry-set"
+                detail = f"only in first run: {sorted(set(Am) - set(B), key=repr)[:3]}, only in second: {sorted(set(B) - set(Am), key=repr)[:3]}"
+            else:
+                dl = [key for key in Am if abs(Am[key].logprob - B[key].logprob) > tol * max(1.0, abs(B[key].logprob))]
+                if dl:
+                    kind = "logprob"
+                    detail = f"{dl[0]}: {Am[dl[0]].logprob!r} vs {B[dl[0]].logprob!r}"
+                else:
+                    dd = [key for key in Am if (Am[key].delayed > mt_a.expand_now) != (B[key].delayed > mt_b.expand_now)]
+                    if dd:
+                        kind = "delayed"
+                        detail = f"{dd[0]}: postponed in one run only (logprob {B[dd[0]].logprob!r})"
+            if not kind:
+                km = (lambda key: tuple(keymap(key))) if keymap else (lambda key: key)
+                for key, e in Am.items():
+                    pa = {km(q.key) for q in e.prev}
+                    pb = {q.key for q in B[key].prev}
+                    if pa != pb:
+                        prev_choice_tie = True
+            if kind:
+                prev_entries = []
+                for (pi, pk) in ((i, k - 1), (i - 1, 0), (i, k)):
+                    if pi >= 0 and pk >= 0:
+                        prev_entries += list(layer(la, pi, pk).values())
+                return {"where": (i, k), "kind": kind, "ties": prev_choice_tie or exact_ties(prev_entries) or exact_ties(list(A.values())) or exact_ties(list(B.values())),
+                        "prev_choice_tie": prev_choice_tie, "detail": detail}
+    return None
+
+
+def order_dependence_mechanism(cfg, div):
+    """Name the mechanism of an order/label dependence from the first lattice divergence; None = no recorded mechanism applies.
+    The repository's search is exact (order-independent up to the reported tie) for emitting-only, first-order
+    configurations; two heuristics make it depend on the order in which EXACTLY tied candidates are listed:"""
+    if div is None or not div["ties"]:
+        return None
+    if div["kind"] == "delayed":
+        return None  # the width pruning itself treated tied candidates differently: never a recorded mechanism
+    i, k = div["where"]
+    if cfg.get("non_emitting") and (k >= 1 or div["kind"] == "entry-set"):
+        return "nonemitting-search-keeps-first-arrival-among-exact-ties"
+    if cfg.get("agb"):
+        return "second-order-penalties-after-exact-tie"
+    return None
